@@ -596,6 +596,8 @@ class Normaliser:
             recv_is_class = isinstance(f.value, ast.Name) and f.value.id == cls.name
             if decos == ["staticmethod"]:
                 return h, None, "static"
+            if decos == ["classmethod"]:
+                return h, ast.Name(id=cls.name, ctx=ast.Load()), "method"       # cls is bound to the defining class
             if decos:
                 return None
             if recv_is_class:
@@ -1354,11 +1356,42 @@ class Normaliser:
                 out[tgt] = val
         return out
 
+    @staticmethod
+    def class_constants(tree) -> Dict[str, ast.expr]:
+        """_NAME -> literal for PRIVATE class attributes bound exactly once (in one class body of the module, never through an attribute store) to a
+        str/bytes/int literal or a tuple of such: `self._NAME` / `cls._NAME` / `Class._NAME` then read as the literal."""
+        def literal(e):
+            if isinstance(e, ast.Constant) and isinstance(e.value, (str, bytes, int)) and not isinstance(e.value, bool):
+                return True
+            return isinstance(e, ast.Tuple) and bool(e.elts) and all(literal(x) for x in e.elts)
+        cand: Dict[str, List[ast.expr]] = {}
+        for c in ast.walk(tree):
+            if isinstance(c, ast.ClassDef):
+                for st in c.body:
+                    tgt, val = None, None
+                    if isinstance(st, ast.Assign) and len(st.targets) == 1 and isinstance(st.targets[0], ast.Name):
+                        tgt, val = st.targets[0].id, st.value
+                    elif isinstance(st, ast.AnnAssign) and isinstance(st.target, ast.Name) and st.value is not None:
+                        tgt, val = st.target.id, st.value
+                    if tgt and tgt.startswith("_") and not tgt.startswith("__"):
+                        cand.setdefault(tgt, []).append(val)
+        stored = {n.attr for n in ast.walk(tree) if isinstance(n, ast.Attribute) and isinstance(n.ctx, (ast.Store, ast.Del))}
+        return {k: v[0] for k, v in cand.items() if len(v) == 1 and literal(v[0]) and k not in stored}
+
     # ---- whole module -----------------------------------------------------------------------------------
     def run(self):
         """A Module-like object over the normalised tree (``_parent`` links set), or the original module when nothing changed."""
         tree = clone(self.mod.tree)
         consts = Normaliser.module_constants(tree)
+        cconsts = Normaliser.class_constants(tree)
+        class_names = {c.name for c in ast.walk(tree) if isinstance(c, ast.ClassDef)}
+
+        class _ClassConst(ast.NodeTransformer):
+            def visit_Attribute(s_, node):
+                s_.generic_visit(node)
+                if isinstance(node.ctx, ast.Load) and node.attr in cconsts and isinstance(node.value, ast.Name) and (node.value.id in ("self", "cls") or node.value.id in class_names):
+                    return ast.copy_location(clone(cconsts[node.attr]), node)
+                return node
         # helpers are looked up in the ORIGINAL definitions (self.methods/functions), expansion happens on the copy
         def visit(body, owner=None):
             for st in body:
@@ -1370,6 +1403,8 @@ class Normaliser:
                     if consts:
                         sub_ = _Rename(consts, {})
                         st.body = [sub_.visit(b) for b in st.body]
+                    if cconsts:
+                        st.body = [_ClassConst().visit(b) for b in st.body]
                     st.body = Normaliser.unroll(st.body)
                     Normaliser.splice_starred(st)
                     for fn in [x for x in ast.walk(st) if isinstance(x, (ast.FunctionDef, ast.AsyncFunctionDef))]:
@@ -1698,3 +1733,101 @@ def mini_call(func, args: Dict[str, object], budget: int = 2000, builtins: Optio
     except _MiniReturn as r:
         return r.v
     return None
+
+
+# ---- path search that respects boolean flags -----------------------------------------------------------------------
+
+def flag_search(g, starts, targets, avoid=(), edge_ok=None, env0=None, limit: int = 20000):
+    """Shortest path from ``starts`` to ``targets`` (not through ``avoid``) that is consistent with the boolean / None locals it passes: after
+    ``flag = True`` a test ``flag`` / ``not flag`` is only left by the matching edge.  ``starts``: node ids, or (node id, {name: value}) pairs.
+    Returns the path (list of node ids) or None."""
+    targets, avoid = set(targets), set(avoid)
+    from collections import deque as _dq
+    init = []
+    for s in starts:
+        if isinstance(s, tuple):
+            init.append((s[0], frozenset((s[1] or {}).items())))
+        else:
+            init.append((s, frozenset((env0 or {}).items())))
+    prev = {st: None for st in init}
+    dq = _dq(init)
+    n_ = 0
+    while dq:
+        cur = dq.popleft()
+        nid, envf = cur
+        n_ += 1
+        if n_ > limit:
+            raise AnalysisError("flag-consistent path search exceeded its cap")
+        if nid in targets and prev[cur] is not None:
+            out = [cur]
+            while prev[out[-1]] is not None:
+                out.append(prev[out[-1]])
+            return [x[0] for x in reversed(out)]
+        env = dict(envf)
+        node = g.node(nid)
+        # effect of the node on the flags
+        if node.kind == "stmt" and isinstance(node.ast, (ast.Assign, ast.AnnAssign, ast.AugAssign)):
+            tg = node.ast.targets if isinstance(node.ast, ast.Assign) else [node.ast.target]
+            val = getattr(node.ast, "value", None)
+            for t in tg:
+                for e in ast.walk(t):
+                    if isinstance(e, ast.Name):
+                        if isinstance(node.ast, ast.Assign) and t is e and isinstance(val, ast.Constant) and (isinstance(val.value, bool) or val.value is None):
+                            env[e.id] = val.value
+                        else:
+                            env.pop(e.id, None)
+        elif node.kind == "for":
+            for e in ast.walk(node.ast.target):
+                if isinstance(e, ast.Name):
+                    env.pop(e.id, None)
+        nenv_ok = frozenset(env.items())
+        for b, l in g.succ[nid]:
+            if b in avoid and b not in targets:
+                continue
+            if edge_ok is not None and not edge_ok(nid, b, l):
+                continue
+            if node.kind == "test" and l in ("T", "F") and isinstance(node.ast, ast.Name) and node.ast.id in env:
+                if bool(env[node.ast.id]) != (l == "T"):
+                    continue
+            # an assignment that raised did not happen: on the exceptional edge the flags are those before the statement
+            nxt = (b, envf if l == "exc" else nenv_ok)
+            if nxt not in prev:
+                prev[nxt] = cur
+                dq.append(nxt)
+    return None
+
+
+def flags_at(g, node_id, limit: int = 20000):
+    """the sets of known boolean / None locals with which control can reach ``node_id`` from the entry (list of dicts)"""
+    from collections import deque as _dq
+    start = (g.entry, frozenset())
+    seen = {start}
+    dq = _dq([start])
+    out = []
+    while dq:
+        nid, envf = dq.popleft()
+        if nid == node_id:
+            if dict(envf) not in out:
+                out.append(dict(envf))
+            continue
+        env = dict(envf)
+        node = g.node(nid)
+        if node.kind == "stmt" and isinstance(node.ast, (ast.Assign, ast.AnnAssign, ast.AugAssign)):
+            tg = node.ast.targets if isinstance(node.ast, ast.Assign) else [node.ast.target]
+            val = getattr(node.ast, "value", None)
+            for t in tg:
+                for e in ast.walk(t):
+                    if isinstance(e, ast.Name):
+                        if isinstance(node.ast, ast.Assign) and t is e and isinstance(val, ast.Constant) and (isinstance(val.value, bool) or val.value is None):
+                            env[e.id] = val.value
+                        else:
+                            env.pop(e.id, None)
+        nenv = frozenset(env.items())
+        for b, l in g.succ[nid]:
+            if node.kind == "test" and l in ("T", "F") and isinstance(node.ast, ast.Name) and node.ast.id in env and bool(env[node.ast.id]) != (l == "T"):
+                continue
+            nxt = (b, envf if l == "exc" else nenv)
+            if nxt not in seen and len(seen) < limit:
+                seen.add(nxt)
+                dq.append(nxt)
+    return out or [{}]
